@@ -5,6 +5,7 @@
 mod dump;
 mod irjson;
 mod kernels;
+mod loctree;
 
 fn main() {
   // panics inside kernels are caught; silence the default hook's backtrace spam
@@ -22,6 +23,7 @@ fn main() {
     "typecheck" => dump::typecheck_cmd(&args[2..]),
     "exprloc" => dump::exprloc_cmd(&args[2..]),
     "survive" => dump::survive_cmd(&args[2..]),
+    "loctree" => loctree::loctree_cmd(&args[2..]),
     _ => {
       eprintln!("unknown subcommand");
       std::process::exit(64);
